@@ -5,7 +5,7 @@
  "properties": {"C03": "contract", "C19": "safety"},
  "mode": "dfcc", "enforce": "emitfunc/emitfunc_contract",
  "stubs": ["base.c", "stdio_noop.c"],
- "unwind": 4,
+ "unwind": 4, "unwindset": ["harness.0:8", "harness.1:5", "strcmp.0:9"],
  "kind": "bounded", "bound": "function with 2 blocks (start, body), at most 1 instruction per block, at most 1 parameter, name of <= 7 characters; instruction kinds, classes, operand/value kinds, jump kinds and targets symbolic",
  "timeout": 120,
  "replay": false,
@@ -37,11 +37,12 @@ int verif_out(void);
  * (2) is memory-safe on a valid IL (instname[] / sigil[] table indices, operand dereferences, assert()s).
  */
 struct type typeint, typevoid;
+extern int g_no_error;
 struct func *g_f;
 struct block *g_last;
 int g_jk0;
 
-#define VALKIND_OK(v)  (((v)->kind & 0xf) >= VALUE_GLOBAL && ((v)->kind & 0xf) <= VALUE_LABEL)
+#define VALKIND_OK(v)  (((v)->kind & ~0x1f) == 0)       /* any kind/flag combination; emitname() rejects the unprintable ones with fatal() */
 #define INST_OK(i)     ((i)->kind > INONE && (i)->kind < IARG && (i)->kind != ICALL && (i)->arg[0] != 0 && VALKIND_OK((i)->arg[0]) && \
                         IMP((i)->arg[1] != 0, VALKIND_OK((i)->arg[1])) && IMP((i)->res.kind != VALUE_NONE, (i)->res.kind == VALUE_TEMP))
 #define JUMP_OK(b)     ((b)->jump.kind >= JUMP_NONE && (b)->jump.kind <= JUMP_HLT && (b)->jump.blk[0] != 0 && (b)->jump.blk[1] != 0 && \
@@ -112,7 +113,7 @@ harness(void)
 	__CPROVER_assume(INST_OK(&insts[0]) && INST_OK(&insts[1]));
 	__CPROVER_assume((in_c0 == 'w' || in_c0 == 'l' || in_c0 == 's' || in_c0 == 'd' || in_c0 == 0) && (in_c1 == 'w' || in_c1 == 'l' || in_c1 == 0));
 	__CPROVER_assume(IMP(in_r0 != VALUE_NONE, in_c0 != 0) && IMP(in_r1 != VALUE_NONE, in_c1 != 0));
-	ia[0][0] = &insts[0]; ia[1][0] = &insts[1];
+	ia[0][0] = in_n0 ? &insts[0] : 0; ia[1][0] = in_n1 ? &insts[1] : 0;      /* slots beyond len hold no instruction */
 	for (i = 0; i < 2; i++) {
 		blk[i].label.kind = VALUE_LABEL;
 		blk[i].insts.val = ia[i];
@@ -134,7 +135,7 @@ harness(void)
 	blk[0].next = &blk[1];
 	blk[1].next = 0;
 	__CPROVER_assume(in_base >= 0 && in_base <= 2);
-	pt.kind = TYPEINT; pt.prop = PROPSCALAR|PROPARITH|PROPREAL|PROPINT; pt.size = 4; pt.u.basic.issigned = 1;
+	pt.value = 0; typevoid.value = 0; pt.kind = TYPEINT; pt.prop = PROPSCALAR|PROPARITH|PROPREAL|PROPINT; pt.size = 4; pt.u.basic.issigned = 1;
 	typeint = pt;
 	typevoid.kind = TYPEVOID;
 	pd.type = &pt; pd.next = 0;
